@@ -15,11 +15,12 @@ import (
 // is the automaton written in TLA+ (spec/cbor/CborWF.tla), which is run on these tokens.
 //
 // Tokens [kind, n]:
-//   ["U",0] unsigned int   ["N",0] negative int   ["B",len] definite byte string   ["T",len] definite text
-//   ["B*",0] ["T*",0] indefinite strings   ["A",n] ["M",n] definite array/map with n items/pairs
-//   ["A*",0] ["M*",0] indefinite   ["G",tag] tag   ["F",bits] float   ["S",v] simple   ["BRK",0]
-//   ["X",off] byte-level error at offset off (reserved additional info 28-30, truncated head or payload,
-//   simple value encoded in two bytes < 32)
+//
+//	["U",0] unsigned int   ["N",0] negative int   ["B",len] definite byte string   ["T",len] definite text
+//	["B*",0] ["T*",0] indefinite strings   ["A",n] ["M",n] definite array/map with n items/pairs
+//	["A*",0] ["M*",0] indefinite   ["G",tag] tag   ["F",bits] float   ["S",v] simple   ["BRK",0]
+//	["X",off] byte-level error at offset off (reserved additional info 28-30, truncated head or payload,
+//	simple value encoded in two bytes < 32)
 type Head struct {
 	K string
 	N uint64
@@ -133,9 +134,9 @@ func ScanHeads(b []byte) []Head {
 // Item is a decoded data item (generic tree), used to compare logged values with arguments.
 type Item struct {
 	Major byte    `json:"m"`
-	AI    byte    `json:"ai"`             // additional information of the head (argument width / float width)
-	U     string  `json:"u,omitempty"`    // argument as decimal (ints: value; negative ints: -1-value already applied)
-	Hex   string  `json:"hex,omitempty"`  // string payload, hex
+	AI    byte    `json:"ai"`              // additional information of the head (argument width / float width)
+	U     string  `json:"u,omitempty"`     // argument as decimal (ints: value; negative ints: -1-value already applied)
+	Hex   string  `json:"hex,omitempty"`   // string payload, hex
 	Items []*Item `json:"items,omitempty"` // array elements / map keys and values alternating / tag content
 	Indef bool    `json:"indef,omitempty"`
 	Bits  string  `json:"bits,omitempty"` // float bits, hex
